@@ -337,7 +337,7 @@ func (s *sim) deliverOne(faults bool) {
 	mc.Entries = append([]pb.Entry(nil), m.Entries...)
 	to.n.Step(context.Background(), mc)
 	s.process(to)
-	if m.Type == pb.MsgSnap && from.up && !dupKeep {
+	if m.Type == pb.MsgSnap && from.up && !f.dup {
 		st := raft.SnapshotFinish
 		if faults && t.Bool(100) {
 			st = raft.SnapshotFailure
